@@ -272,6 +272,41 @@ def run(tier):
                         res.violation(f"C16:{'accepts' if got == 'T' else 'rejects'}:{m[0]}:{paths[pi]}:{mode}",
                                       {"type": e, "value": ve, "path": paths[pi], "mode": mode, "got": got == "T", "denotes": want})
             distinct.add((e, out[j * NP]))
+    # nominal types declared by textually identical code in DIFFERENT files (same byte offsets) are different types
+    decl = PRE + 'VX = [R1(a = 1, b = "x"), R2(a = 1, b = "x"), E1("x"), E2("y"), [R1(a = 2, b = "")], {"k": E1("y")}, (R1(a = 3, b = "z"), E1("x"))]\n'
+    tests_ = ["R1", "R2", "E1", "E2", "list[R1]", "dict[str, E1]", "(R1, E1)", "R1 | E1", "list[R1 | int]"]
+    main = (decl + 'load("a.star", VA = "VX", AR1 = "R1", AE1 = "E1")\nload("b.star", VB = "VX")\n' +
+            "".join(f"T{i} = {t}\ndef p{i}(x: {t}):\n    return 1\n" for i, t in enumerate(tests_)) +
+            "ALLV = VX + VA + VB\n" +
+            "".join(f"emit([isinstance(v, T{i}) for v in ALLV])\nemit([not fails(lambda: p{i}(v)) for v in ALLV])\nemit([type_matches(T{i}, v) for v in ALLV])\n"
+                    for i in range(len(tests_))) +
+            "emit([isinstance(v, AR1) for v in ALLV])\nemit([isinstance(v, AE1) for v in ALLV])\n")
+    xo = vlib.run_sut("run", [{"id": 0, "libs": [["a.star", decl], ["b.star", decl]], "steps": [main], "opts": {"dialect": "all"}}])[0]
+    if "crash" in xo or "panic" in xo or xo["steps"][0]["err"]:
+        res.violation("C16:cross-file:error", {"src": main, "out": str(xo)[:600]})
+    else:
+        rows = xo["steps"][0]["out"]
+        # model: only the 7 values of the file that declared the type can match; per-value membership as in the single-file matrix
+        own = {"R1": [1, 0, 0, 0, 0, 0, 0], "R2": [0, 1, 0, 0, 0, 0, 0], "E1": [0, 0, 1, 0, 0, 0, 0], "E2": [0, 0, 0, 1, 0, 0, 0],
+               "list[R1]": [0, 0, 0, 0, 1, 0, 0], "dict[str, E1]": [0, 0, 0, 0, 0, 1, 0], "(R1, E1)": [0, 0, 0, 0, 0, 0, 1],
+               "R1 | E1": [1, 0, 1, 0, 0, 0, 0], "list[R1 | int]": [0, 0, 0, 0, 1, 0, 0]}
+        def enc_row(bits):
+            return "L#0[" + ",".join("T" if b else "F" for b in bits) + "]"
+        k = 0
+        for i, t in enumerate(tests_):
+            want = enc_row(own[t] + [0] * 14)       # types declared in the main file: only the main file's values
+            for path in ("isinstance", "parameter", "host"):
+                checks += 21
+                if rows[k] != want:
+                    res.violation(f"C16:cross-file-identity:{path}", {"type": t, "declared_in": "main", "path": path, "got": rows[k], "expected": want,
+                                                                      "values": "7 of main, 7 of a.star, 7 of b.star (identical declarations)"})
+                k += 1
+        for nm, t in (("AR1", "R1"), ("AE1", "E1")):
+            want = enc_row([0] * 7 + own[t] + [0] * 7)  # types loaded from a.star: only a.star's values
+            checks += 21
+            if rows[k] != want:
+                res.violation("C16:cross-file-identity:loaded-type", {"type": nm, "declared_in": "a.star", "got": rows[k], "expected": want})
+            k += 1
     res.coverage = {
         "evaluations": checks,
         "distinct_nontrivial": len(distinct),
